@@ -324,7 +324,7 @@ def optimizer_workload(term):
 def replay_script(failure):
     ctx = failure["context"]
     return (
-        "import sys\nsys.path.insert(0, '/repo'); sys.path.insert(0, '/verif/rtc')\n"
+        "import sys, os\nsys.path.insert(0, os.environ.get('VERIF_REPO', '/repo')); sys.path.insert(0, '/verif/rtc')\n"
         "import terms_rules as R\n"
         "CONTEXT = %r\nRULE = %r\n" % (ctx, failure["rule"])
         + "# re-runs the workload case that drove the rule, with the dispatch wrappers installed\n"
